@@ -1,6 +1,8 @@
 pub mod c20;
+pub mod c23;
 pub mod c24;
 pub mod c25;
+pub mod c26;
 pub mod c27;
 pub mod c28;
 pub mod c29;
@@ -16,8 +18,10 @@ pub fn lookup(id: &str) -> Option<CheckDef> {
         "C20" => c20::def(),
         "C21" => wire::def_c21(),
         "C22" => wire::def_c22(),
+        "C23" => c23::def(),
         "C24" => c24::def(),
         "C25" => c25::def(),
+        "C26" => c26::def(),
         "C27" => c27::def(),
         "C28" => c28::def(),
         "C29" => c29::def(),
@@ -28,4 +32,4 @@ pub fn lookup(id: &str) -> Option<CheckDef> {
     })
 }
 
-pub const ALL: &[&str] = &["C20", "C21", "C22", "C24", "C25", "C27", "C28", "C29", "C41", "C42", "C43"];
+pub const ALL: &[&str] = &["C20", "C21", "C22", "C23", "C24", "C25", "C26", "C27", "C28", "C29", "C41", "C42", "C43"];
